@@ -658,8 +658,12 @@ func countSelectUnionChildrenFormat(n *ast.SelectWithUnionQuery, withFormat bool
 			}
 		}
 	}
-	// Count union-level SETTINGS (either before or after FORMAT)
-	if len(n.Settings) > 0 && (n.SettingsBeforeFormat || n.SettingsAfterFormat) {
+	// Count union-level SETTINGS before FORMAT
+	if n.SettingsBeforeFormat && len(n.Settings) > 0 {
+		count++
+	}
+	// Count SETTINGS after FORMAT (union level first, then SelectQuery level)
+	if n.SettingsAfterFormat && len(n.Settings) > 0 {
 		count++
 	} else {
 		// Legacy check for settings on SelectQuery
